@@ -46,6 +46,11 @@ type lockCfg struct {
 	DoubleSignFraction string `json:"double_sign_fraction,omitempty"`
 	// SubSecond: the menu's block times carry a sub-second part, as consensus (median) times do
 	SubSecond bool `json:"sub_second_block_times,omitempty"`
+	// HugeAmounts: the menu locks amounts near the limits of a 256-bit balance
+	HugeAmounts bool `json:"huge_amounts,omitempty"`
+	// ExitShorter: unlock period 100 s, jail 60 s, exit period 70 s - an exit period shorter than the
+	// unlock period; explored only if the chain's own parameter validation admits it
+	ExitShorter bool `json:"exit_period_shorter_than_unlock_period,omitempty"`
 }
 
 // admitted reports whether the module's own parameter validation accepts the configuration.
@@ -85,6 +90,9 @@ func (c lockCfg) genesis() *sim.GenesisCfg {
 	}
 	if c.EqualDurations {
 		cfg.LockingParams.ExitingDuration = cfg.LockingParams.UnlockDuration
+	}
+	if c.ExitShorter {
+		cfg.LockingParams.UnlockDuration, cfg.LockingParams.DowntimeJailDuration, cfg.LockingParams.ExitingDuration = 100*time.Second, 60*time.Second, 70*time.Second
 	}
 	cfg.LockingParams.MaxValidators = c.MaxValidators
 	if c.InitialReward > 0 {
